@@ -242,3 +242,21 @@ Proof.
     apply Z.bits_above_log2; [lia|]. apply Z.lt_le_trans with 256; [|lia].
     apply Z.log2_lt_pow2; [lia|]. exact H1.
 Qed.
+
+Lemma shl_mask_drop s c y : 0 <= s < 256 -> Z.land c (Z.ones (256 - s)) = Z.ones (256 - s) ->
+  wshl s (wand c y) = wshl s y.
+Proof.
+  intros Hs Hc. unfold wand, wshl, wrap.
+  destruct (Z.ltb_spec s 256) as [_|?]; [|lia].
+  unfold W. rewrite <- !Z.land_ones by lia. rewrite <- !Z.shiftl_mul_pow2 by lia.
+  apply Z.bits_inj'; intros n Hn.
+  rewrite !Z.land_spec. destruct (Z_lt_le_dec n s) as [L|L].
+  - rewrite !Z.shiftl_spec_low by lia. reflexivity.
+  - rewrite !Z.shiftl_spec by lia. rewrite Z.land_spec.
+    destruct (Z_lt_le_dec n 256) as [L2|L2].
+    + assert (B : Z.testbit c (n - s) = true).
+      { assert (E : Z.testbit (Z.land c (Z.ones (256 - s))) (n - s) = Z.testbit (Z.ones (256 - s)) (n - s)) by (rewrite Hc; reflexivity).
+        rewrite Z.land_spec, Z.ones_spec_low in E by lia. rewrite andb_true_r in E. exact E. }
+      rewrite B. reflexivity.
+    + rewrite Z.ones_spec_high by lia. rewrite !andb_false_r. reflexivity.
+Qed.
